@@ -333,6 +333,18 @@ func c17r2(c *Ctx, id string) {
 				}
 				construct := g.fn + ":" + f.Name()
 				if len(keys) == 0 {
+					// `field = valueOr(m, "key", field)`: a lookup-or-keep helper is the override of that key
+					if key, okh := lookupOrKeep(w, st.Val, fa); okh {
+						n++
+						if key == tag {
+							c.OK(id, construct, st.Pos(), "Config[%q] → field %s (yaml:%q) through a lookup-or-keep helper", key, f.Name(), tag)
+						} else {
+							c.Fail(id, construct, st.Pos(), "field %s (yaml:%q) is overridden by the key %q — each option must be overridden by exactly its own key", f.Name(), tag, key)
+						}
+						continue
+					}
+				}
+				if len(keys) == 0 {
 					// initial literal: inherited or default value — must be written before any override is looked up
 					late := false
 					allInstrs(fn, func(x ssa.Instruction) {
@@ -1009,4 +1021,63 @@ func c17pattern(c *Ctx, id string, fn *ssa.Function) {
 	default:
 		c.OK(id, "placeholder-pattern", find.Pos(), "pattern %q = \"${\" (name) \"}\"; the name cannot contain '}' and admits [A-Za-z0-9_] at every position", pat)
 	}
+}
+
+// lookupOrKeep: v is a call h(m, "key", cur) of a module helper that returns m[key] when the key is present and its
+// third argument otherwise, where cur is the current value of the very location being stored to: the constant key.
+func lookupOrKeep(w *World, v ssa.Value, dst *ssa.FieldAddr) (string, bool) {
+	call, ok := unwrap(v).(*ssa.Call)
+	if !ok {
+		return "", false
+	}
+	h := call.Common().StaticCallee()
+	args := call.Common().Args
+	if h == nil || h.Blocks == nil || !w.inModule(h) || len(args) != 3 || len(h.Params) != 3 {
+		return "", false
+	}
+	if _, isMap := args[0].Type().Underlying().(*types.Map); !isMap {
+		return "", false
+	}
+	cst, isC := args[1].(*ssa.Const)
+	if !isC || cst.Value == nil || cst.Value.Kind() != constant.String {
+		return "", false
+	}
+	// the third argument is the current value of the destination
+	ld, isLd := unwrap(args[2]).(*ssa.UnOp)
+	if !isLd || ld.Op != token.MUL {
+		return "", false
+	}
+	fa2, isFA := ld.X.(*ssa.FieldAddr)
+	if !isFA || fa2.X != dst.X || fa2.Field != dst.Field {
+		return "", false
+	}
+	// the helper: every return is m[k]'s value under its presence flag, or the default parameter
+	okAll, nLook, nDef := true, 0, 0
+	allInstrs(h, func(in ssa.Instruction) {
+		r, isR := in.(*ssa.Return)
+		if !isR || len(r.Results) != 1 {
+			return
+		}
+		rv := unwrap(r.Results[0])
+		if rv == ssa.Value(h.Params[2]) {
+			nDef++
+			return
+		}
+		if ex, isEx := rv.(*ssa.Extract); isEx && ex.Index == 0 {
+			if lk, isLk := ex.Tuple.(*ssa.Lookup); isLk && lk.CommaOk && unwrap(lk.X) == ssa.Value(h.Params[0]) && unwrap(lk.Index) == ssa.Value(h.Params[1]) {
+				if guardedBy(in.Block(), true, func(x ssa.Value) bool {
+					e2, is2 := x.(*ssa.Extract)
+					return is2 && e2.Tuple == ssa.Value(lk) && e2.Index == 1
+				}) {
+					nLook++
+					return
+				}
+			}
+		}
+		okAll = false
+	})
+	if !okAll || nLook == 0 || nDef == 0 {
+		return "", false
+	}
+	return constant.StringVal(cst.Value), true
 }
